@@ -134,6 +134,10 @@ def main(argv):
                 failed_ids.add(fl.obligation)
             else:
                 other_failures.append(fl)
+        for fl in r.failures:
+            if pid in fl.tags and fl.obligation in known_by_ob and '#pre(' in fl.obligation:
+                obligations.append({'id': fl.obligation, 'fn': fl.fn, 'tags': fl.tags, 'unit': unit, 'kind': 'pre',
+                                    'text': 'call-site precondition: %s' % (fl.clause or ''), 'status': 'failed'})
         failed_fns = {fl.fn for fl in r.failures}
         for o in obs:
             o = dict(o)
@@ -143,7 +147,7 @@ def main(argv):
             elif o['id'] in failed_ids:
                 o['status'] = 'failed'
             elif o['kind'] == 'safety' and any(fl.fn == o['fn'] and fl.obligation.split('#')[1].startswith(('safety', 'pre(')) and pid in fl.tags
-                                                for fl in r.failures):
+                                                and fl.obligation not in known_by_ob for fl in r.failures):
                 o['status'] = 'failed'
             else:
                 o['status'] = 'discharged'
